@@ -98,12 +98,13 @@ Proof. induction l as [|o r IH]; intros n; cbn; [reflexivity|]. rewrite IH. refl
 
 Lemma cv_enum_syms scope name e : enum_symbols scope (cv_enum name e) = decl_enum_syms scope name e.
 Proof.
-  unfold enum_symbols, J5sSymbols.decl_enum_syms, decl_value_names, J5sConvert.cv_enum, zero_value_name, declared_opts.
+  unfold enum_symbols, J5sSymbols.decl_enum_syms, decl_value_names, J5sConvert.cv_enum, strict_opts.
   rewrite (enum_prefix_spec screaming).
   destruct (e_opts e) as [|o r]; cbn [en_name en_vals map fst]; [reflexivity|].
   change (b "UNSPECIFIED") with unspecified.
-  destruct (has_suffix unspecified o); cbn [en_name en_vals map fst].
-  - rewrite <- map_map with (f := fst). rewrite number_opts_names. reflexivity.
+  rewrite (explicit_zero_spec). destruct (zero_spelled _ o) eqn:Hz; cbn [en_name en_vals map fst].
+  - unfold zero_spelled in Hz. apply str_eqb_eq in Hz. unfold opt_value_name in Hz. unfold value_name. rewrite Hz.
+    rewrite <- map_map with (f := fst). rewrite number_opts_names. reflexivity.
   - rewrite <- map_map with (f := fst). rewrite number_opts_names. reflexivity.
 Qed.
 
@@ -428,7 +429,7 @@ Proof.
   induction l as [|x r IH]; intros D H; cbn [J5sConvert.cv_files] in H.
   - inversion H. reflexivity.
   - destruct x as [j|p]; cbn [flat_map].
-    + apply obind_ok in H. destruct H as (a & Ea & H). apply obind_ok in H. destruct H as (c & Ec & H).
+    + destruct (file_lists_ok j) eqn:Elists; [|discriminate]. apply obind_ok in H. destruct H as (a & Ea & H). apply obind_ok in H. destruct H as (c & Ec & H).
       inversion H. subst D. rewrite flat_map_app, (cv_file_symbols _ _ _ Ea), (IH _ Ec). reflexivity.
     + cbn [app]. apply IH. exact H.
 Qed.
